@@ -49,7 +49,8 @@ PROBES = ['smtp', 'http', 'null-sender', 'quoted-local-part', 'utf8-address',
           'no-pipelining', 'no-8bitmime', 'no-smtputf8', 'size-advertised',
           'starttls', 'auth', 'helo-fallback', 'connection-reuse',
           'queue-error-reply', '8bit-body', 'dot-lines', 'bare-newlines',
-          'no-final-newline', 'folded-header', '7bit-conversion-refused']
+          'no-final-newline', 'folded-header', '7bit-conversion-refused',
+          'rcpt-rejected-by-edge', 'duplicate-recipient']
 STATES_MEASURE = 'distinct (transport, withheld extensions, address kinds, body flags) tuples'
 STEP_CAP = 300000
 
@@ -93,8 +94,16 @@ def generate(seed, tier='quick'):
         rcpts = []
         for i in range(rng.randint(1, 6)):
             a, kd = gen_address(rng, utf8_ok, 10 * j + i)
+            if transport == 'smtp' and rng.random() < 0.15:
+                a = 'nouser%d@d.example' % (10 * j + i)   # the edge says 550
+                kd = 'rejected'
             rcpts.append(a)
             kinds.add(kd)
+        if len(rcpts) > 1 and rng.random() < 0.12:
+            # the same address twice is a legal recipient list
+            rcpts.insert(rng.randrange(1, len(rcpts) + 1),
+                         rcpts[rng.randrange(len(rcpts))])
+            kinds.add('duplicate')
         hdr = b'From: someone@example.com\r\nSubject: hop %d\r\n' % j
         if rng.random() < 0.3:
             hdr += b'X-Folded: first part\r\n second part\r\n\tthird\r\n'
@@ -149,7 +158,9 @@ def execute(scn, debug=False):
             for k in m['kinds']:
                 world.probe({'null': 'null-sender', 'quoted':
                              'quoted-local-part', 'utf8': 'utf8-address',
-                             'plain': 'smtp' if False else scn['transport']}[k])
+                             'rejected': 'rcpt-rejected-by-edge',
+                             'duplicate': 'duplicate-recipient',
+                             'plain': scn['transport']}[k])
                 flags.add(k)
             bk = m['body_kind']
             flags.add(bk)
@@ -233,9 +244,12 @@ def _judge(result, scn, j, m, env_flat, captured, res, edge_code):
     if captured['sender'] != m['sender']:
         return bad('C06/sender', 'message %d: sender %r arrived as %r' % (
             j, m['sender'], captured['sender']), kinds=m['kinds'])
-    if captured['rcpts'] != m['rcpts']:
-        return bad('C06/recipients', 'message %d: recipients %r arrived as %r'
-                   % (j, m['rcpts'], captured['rcpts']), kinds=m['kinds'])
+    want_rcpts = [r for r in m['rcpts'] if not r.startswith('nouser')]
+    if captured['rcpts'] != want_rcpts:
+        return bad('C06/recipients', 'message %d: recipients %r (the edge '
+                   'accepts %r) arrived as %r' % (j, m['rcpts'], want_rcpts,
+                                                  captured['rcpts']),
+                   kinds=m['kinds'])
     sent = hdr + body
     got = captured['hdr'] + captured['body']
     want = [sent]
@@ -282,6 +296,11 @@ def _smtp(world, scn, result):
 
             def handle_auth(self, reply, creds):
                 pass
+
+            def handle_rcpt(self, reply, recipient, params):
+                if recipient.startswith('nouser'):
+                    reply.code = '550'
+                    reply.message = '5.1.1 no such user'
         edge = esmtp.SmtpEdge(None, q, max_size=scn['max_size'],
                               validator_class=V,
                               auth=[b'PLAIN'] if scn['auth'] else False,
@@ -340,6 +359,17 @@ def _smtp(world, scn, result):
                            % (j, m['sender'], m['rcpts'], res['raised'],
                               res.get('msg'), res.get('site'))})
                 break
+            accepted = [r for r in m['rcpts'] if not r.startswith('nouser')]
+            if not accepted:
+                # every recipient refused: a permanent failure, nothing queued
+                if res['whole'] != 'perm' or captured is not None:
+                    result['violations'].append({
+                        'clause': 'C06/result',
+                        'detail': {'transport': 'smtp', 'what': 'all-rejected'},
+                        'msg': 'message %d: the edge refused every recipient '
+                               'with 550 but the relay reports %r' % (j, res)})
+                    break
+                continue
             _judge(result, scn, j, m, flat, captured, res, None)
             if result['violations']:
                 break
@@ -347,8 +377,22 @@ def _smtp(world, scn, result):
             want = {'qerr': 'temp', 'qerr-reply': 'temp'}.get(m['queue'], 'ok')
             rep = res['whole']
             if res['per'] is not None:
-                vals = set(res['per'].values())
-                rep = 'ok' if vals == {'ok'} else sorted(vals)[0]
+                per = res['per']
+                wrong = [(r, per.get(r)) for r in set(m['rcpts'])
+                         if per.get(r) != ('perm' if r.startswith('nouser')
+                                           else want)]
+                if wrong:
+                    result['violations'].append({
+                        'clause': 'C06/result',
+                        'detail': {'transport': 'smtp',
+                                   'what': 'per-recipient'},
+                        'msg': 'message %d: recipients %r; the edge refused '
+                               'those starting with "nouser" (550) and %s the '
+                               'rest, but the relay reports %r' % (
+                                   j, m['rcpts'], 'accepted' if want == 'ok'
+                                   else 'deferred', per)})
+                    break
+                rep = want
             if rep != want:
                 result['violations'].append({
                     'clause': 'C06/result',
